@@ -9,6 +9,7 @@ package main
 // predicts the same lines.  Ops (fields after the property id):
 //
 //	scname <hex>                                           termscaler.ScalerByName (the --scale flag)
+//	skeys  <sc> <buckets> <min> <max>                      Scaler.ScaleKeys, the legend numbers (c14keys.go)
 //	scale  <sc> <val> <min> <max>                          Scale bits + Bucket/LengthVal for the palette sizes
 //	barw   <uni> <maxLen> <sc> <val> <min> <max>           termunicode.BarWrite(Scale(..), maxLen)
 //	stack  <col> <uni> <maxVal> <maxLen> <vals>            termunicode.BarWriteStacked
@@ -307,6 +308,8 @@ func c14Run(f []string) (ans string) {
 		return c14Render(f[1:])
 	case "rcli":
 		return c14RunRcli(f)
+	case "skeys":
+		return c14RunSkeys(f)
 	}
 	return "bad-op"
 }
@@ -1237,6 +1240,14 @@ func c14Gen(r *Rand, tier string) []string {
 		}
 		recH(nil)
 	}
+	// the legend numbers directly (c14keys.go); appended last so that the random stream of the cases above is unchanged
+	nKeys := 400
+	if tier == "thorough" {
+		nKeys = 20000
+	}
+	for i := 0; i < nKeys; i++ {
+		out = append(out, c14GenSkeys(r))
+	}
 	return out
 }
 
@@ -1333,7 +1344,7 @@ func c14Corpus() []string {
 		"fmtseq x7b73756269207b327d207b307d7d 21:0:23,21:0:92882",
 		"render bars 0 0 linear x7b307d206f66207b327d 0 50 61616161;62626262 - 0:0:5,1:0:9",
 		"render table 0 x7b307d2f7b327d 0 0 4 4 7231;7232;7233 6331;6332 0:0:1,1:1:2|2:0:7",
-	}, c14RcliCorpus()...)
+	}, append(c14RcliCorpus(), c14SkeysCorpus()...)...)
 }
 
 func init() {
